@@ -164,10 +164,15 @@ func TestVerifZipperWork(t *testing.T) {
 				}
 			}
 			zev := map[string]any{"ev": "zip", "family": c.Family, "size": c.Size, "fn": name, "completed": false}
-			func() {
+			zdone := make(chan struct{})
+			var zmu sync.Mutex
+			go func() {
+				defer close(zdone)
 				defer func() {
 					if r := recover(); r != nil {
+						zmu.Lock()
 						zev["panic"] = fmt.Sprint(r)
+						zmu.Unlock()
 					}
 				}()
 				t0 := time.Now()
@@ -175,9 +180,18 @@ func TestVerifZipperWork(t *testing.T) {
 				if err == nil {
 					_, err = z.ComputeDiff()
 				}
+				zmu.Lock()
 				zev["completed"] = true
 				zev["wall_ms"] = time.Since(t0).Milliseconds()
+				zmu.Unlock()
 			}()
+			select {
+			case <-zdone:
+			case <-time.After(time.Duration(budget+2000) * time.Millisecond):
+				// the zipper did not return within the budget: recorded as not completed; the goroutine is
+				// abandoned (it cannot be cancelled) and the counters are frozen as they are
+			}
+			zmu.Lock()
 			VerifCountHook = nil
 			if calls > 0 {
 				flush()
@@ -194,6 +208,7 @@ func TestVerifZipperWork(t *testing.T) {
 			}
 			zev["instrs_old"] = instrs // instructions of the two functions being matched
 			enc.Encode(zev)
+			zmu.Unlock()
 		}
 	}
 }
